@@ -20,6 +20,8 @@ def birkhoff_von_neumann(X: np.ndarray) -> List[Tuple[float, np.ndarray]]:
   """
   check_square_matrix(X)
   n = X.shape[0]
+  # Work on a copy: the loop below subtracts from the matrix in place.
+  X = np.array(X, dtype=float)
 
   result = []
   while True:
